@@ -453,23 +453,31 @@ func genPurity(out string, root, helpers *pkgFiles) {
 			copied = false
 			continue
 		}
-		src := map[string]string{}
+		// in the method itself or in a helper it delegates to: `m := mergeFrontMatter(…)` … `NewStackWithData(m, …)` (or the call nested directly)
 		okHere := false
-		ast.Inspect(fd.Body, func(n ast.Node) bool {
-			switch x := n.(type) {
-			case *ast.AssignStmt:
-				if len(x.Lhs) == 1 && len(x.Rhs) == 1 {
-					if ce, ok := x.Rhs[0].(*ast.CallExpr); ok {
-						src[exprString(x.Lhs[0])] = exprString(ce.Fun)
+		for _, body := range bodiesReachable(root, fd, 2) {
+			src := map[string]string{}
+			ast.Inspect(body, func(n ast.Node) bool {
+				switch x := n.(type) {
+				case *ast.AssignStmt:
+					if len(x.Lhs) == 1 && len(x.Rhs) == 1 {
+						if ce, ok := x.Rhs[0].(*ast.CallExpr); ok {
+							src[exprString(x.Lhs[0])] = exprString(ce.Fun)
+						}
+					}
+				case *ast.CallExpr:
+					if exprString(x.Fun) == "NewStackWithData" && len(x.Args) == 2 {
+						if src[exprString(x.Args[0])] == "mergeFrontMatter" {
+							okHere = true
+						}
+						if ce, ok := x.Args[0].(*ast.CallExpr); ok && exprString(ce.Fun) == "mergeFrontMatter" {
+							okHere = true
+						}
 					}
 				}
-			case *ast.CallExpr:
-				if exprString(x.Fun) == "NewStackWithData" && len(x.Args) == 2 && src[exprString(x.Args[0])] == "mergeFrontMatter" {
-					okHere = true
-				}
-			}
-			return true
-		})
+				return true
+			})
+		}
 		if !okHere {
 			copied = false
 		}
